@@ -71,6 +71,15 @@ int f(int a, int b) {
 }
 '''
 
+# large constants and strings: literal pools / generated symbol names (Frame.new_name)
+LITERALS = r'''
+char *greeting = "hello literal pool";
+int big(int a) { return a * 305419896 + 19088743; }
+int sel(int a, int b) { if (a > b && b > 3) return a - 1000000; return b + 77777777; }
+unsigned mix(unsigned x) { return (x ^ 2654435761u) + (x >> 3) * 40503u; }
+int len(char *p) { int n = 0; while (*p) { p++; n++; } return n + len("inner") * 16777619; }
+'''
+
 FLOATS = r'''
 double scale(double a, double b, int n) { double s = 0.0; int i; for (i = 0; i < n; i++) { s = s + a * b; a = a - 1.5; } return s; }
 float mixf(float p, float q) { if (p > q) { return p - q; } return q * p + 2.0f; }
@@ -155,7 +164,7 @@ def c3_sets(repo):
 
 def program_set(rng, thorough):
     progs = [('loops', LOOPS), ('pressure', PRESSURE), ('calls', CALLS), ('structs', STRUCTS),
-             ('control', CONTROL), ('mem2reg', MEM2REG)]
+             ('control', CONTROL), ('mem2reg', MEM2REG), ('literals', LITERALS)]
     ngen = 6 if thorough else 2
     for i in range(ngen):
         progs.append(('gen%d' % i, fix_calls(gen_c(rng, nfun=3 + (i % 2), nvars=8 + 2 * (i % 4)))))
